@@ -27,7 +27,8 @@ N1, N2 = 20000, 300000
 P1, P2 = 1e-5, 1e-7
 
 GRID = [
-    ["DistBernoulli", [0.5]], ["DistBernoulli", [0.01]], ["DistBernoulli", [0.99]],
+    ["DistBernoulli", [0.5]], ["DistBernoulli", [0.01]], ["DistBernoulli", [0.99]], ["DistBernoulli", [0.0]], ["DistBernoulli", [1.0]],
+    ["DistBinomial", [7, 0.0]], ["DistBinomial", [7, 1.0]], ["DistGeometric", [1.0]], ["DistNegBinomial", [3, 1.0]], ["DistNegBinomial", [1, 1.0]],
     ["DistBeta", [0.5, 0.5]], ["DistBeta", [1.0, 1.0]], ["DistBeta", [2.0, 5.0]], ["DistBeta", [0.7, 3.0]], ["DistBeta", [8, 1.5]],
     ["DistBinomial", [1, 0.3]], ["DistBinomial", [10, 0.5]], ["DistBinomial", [50, 0.02]], ["DistBinomial", [200, 0.9]],
     ["DistConstant", [2.5]],
